@@ -345,7 +345,11 @@ class ValueSet:
             return FalseResult()
         if isinstance(other, StridedInterval):
             if "global" in self.regions:
-                return self.regions["global"] == other
+                ret = self.regions["global"] == other
+                if len(self.regions) > 1:
+                    # a pointer into another region is not a plain number
+                    return MaybeResult() if BoolResult.has_true(ret) else FalseResult()
+                return ret
             return FalseResult()
         return FalseResult()
 
